@@ -121,12 +121,28 @@ func (g *FuncGen) applySplits() {
 				out = append(out, o)
 				continue
 			}
+			if len(sp.Only) > 0 {
+				hit := false
+				for _, lb := range sp.Only {
+					if strings.HasSuffix(baseName(o.Name), ":"+lb) {
+						hit = true
+					}
+				}
+				if !hit {
+					out = append(out, o)
+					continue
+				}
+			}
 			for k := sp.Lo; k <= hi; k++ {
 				c := *o
 				c.Name = fmt.Sprintf("%s[%s=%d]", o.Name, sp.Expr.String(), k)
 				c.Extra = append(append([]string{}, o.Extra...), fmt.Sprintf("(= %s %d)", v.Term, k))
 				c.Subst = append(append([][2]string{}, o.Subst...), [2]string{v.Term, fmt.Sprintf("%d", k)})
 				out = append(out, &c)
+			}
+			if sp.Bounded {
+				g.bounded = append(g.bounded, fmt.Sprintf("%s in %d..%d", sp.Expr.String(), sp.Lo, hi))
+				continue
 			}
 			// the rest of the domain outside the split range is covered by one residual instance
 			c := *o
